@@ -718,7 +718,8 @@ class Scalar(Qube):
                         instead of a builtin type.
         """
 
-        result = Scalar(np.sign(self._values_), mask=self._mask_)
+        result = Scalar(np.sign(self._values_), mask=self._mask_,
+                        drank=self._drank_)
 
         if not zeros:
             result[result == 0] = 1
